@@ -65,6 +65,28 @@ def is_immutable(t: Type) -> bool:
     return True
 
 
+def class_sequence(model, mod, e: ast.AST, depth: int = 0):
+    """Fold an expression to a list of classes: a tuple/list of class names, `tuple(..)`/`list(..)` of one,
+    `<dict literal or module dict>.values()`, or a module-level name bound to one of these.  None otherwise."""
+    if depth > 6 or e is None:
+        return None
+    if isinstance(e, (ast.Tuple, ast.List)):
+        out = [model.resolve_class(mod, x) for x in e.elts]
+        return out if out and all(c is not None for c in out) else None
+    if isinstance(e, ast.Name):
+        return class_sequence(model, mod, mod.assigns.get(e.id), depth + 1)
+    if isinstance(e, ast.Call) and isinstance(e.func, ast.Name) and e.func.id in ("tuple", "list") and len(e.args) == 1:
+        return class_sequence(model, mod, e.args[0], depth + 1)
+    if isinstance(e, ast.Call) and isinstance(e.func, ast.Attribute) and e.func.attr == "values" and not e.args:
+        d = e.func.value
+        if isinstance(d, ast.Name):
+            d = mod.assigns.get(d.id)
+        if isinstance(d, ast.Dict):
+            out = [model.resolve_class(mod, x) for x in d.values]
+            return out if out and all(c is not None for c in out) else None
+    return None
+
+
 @dataclass
 class Binding:
     kind: str  # expr | iter | unpack | with | other
@@ -560,7 +582,13 @@ class TypeSys:
             ext = sorted(self.model.external_bases(fn.cls))
             return CallRes("ext", ext_name=f.attr, ext_recv=f"super:{','.join(ext)}",
                            recv=ast.Name(id=fn.params[0], ctx=ast.Load()) if fn.params else None)
-        if isinstance(f, ast.Subscript):  # Cache[UInt32](...)
+        if isinstance(f, ast.Subscript):
+            # table[i](...): a module-level sequence of classes (e.g. tuple(instruction_map.values())) -> any of them
+            seq = class_sequence(self.model, m, f.value)
+            if seq:
+                ks = set(seq)
+                return CallRes("ctor", self._ctor_targets(ks), classes=ks)
+            # Cache[UInt32](...)
             inner = ast.Call(func=f.value, args=e.args, keywords=e.keywords)
             ast.copy_location(inner, e)
             return self.resolve_call(inner, fn)
